@@ -173,6 +173,35 @@ def bind(chk: Check, tier: str, seed: int, shadowed: set | None = None):
             recs.append(o)
             meta.append(d["id"])
     chk.add(frame_level_records=len(recs) - n_direct)
+    # ... and through a decoder whose exclude list names every other definition of each multi-definition PGN by id: a payload
+    # aimed at an excluded definition is filtered out after it was selected (ids are known only then); the payloads aimed at the
+    # permitted definitions of that PGN number are selected as ever - under one and the same sequence counter for the frames
+    # (the decoder resets a completed message whatever became of it)
+    n_frames = len(recs)
+    by_pgn: dict = {}
+    for d in db["defs"]:
+        by_pgn.setdefault(d["pgn"], []).append(d["id"])
+    excluded = {i for ids in by_pgn.values() if len(ids) > 1 for i in ids[1::2]}
+    decx = NMEA2000Decoder(exclude_pgns=sorted(excluded))
+    qx = [3]
+    for (d, payload, fill), direct in zip(vectors(db, random.Random(seed), cap, fills), list(recs[:n_direct])):
+        if fill > 1 or len(by_pgn[d["pgn"]]) < 2:
+            continue
+        # (the sequence counter advances as a sender's does - except right after a message that was filtered out: the next one
+        #  repeats its counter)
+        o = observe_frames(decx, d, payload, [qx[0]])
+        qx[0] = (qx[0] + 1) % 8
+        if o is None:
+            continue
+        if direct.get("id") in excluded:                    # what the unfiltered decoder selects for this vector is excluded here
+            if o["ret"] != "msg":
+                if direct.get("ret") == "msg":
+                    qx[0] = (qx[0] - 1) % 8
+                continue                                    # filtered out, as asked
+            o = dict(o, ret="err", id="")                   # an excluded definition came back: judged as a failure of this vector
+        recs.append(o)
+        meta.append(d["id"])
+    chk.add(frame_level_records_filtered_decoder=len(recs) - n_frames)
     bad = validate("C08", recs, wd)
     selected = {r["id"] for r in recs if r["ret"] in ("msg", "err")}
     multi = {d["id"] for d in db["defs"] if sum(1 for x in db["defs"] if x["pgn"] == d["pgn"]) > 1}
